@@ -79,7 +79,9 @@ class Universe:
         if isinstance(k, float) and k == int(k):
             k = int(k)
         if isinstance(k, int) and not isinstance(k, bool):
-            if not (0 <= k <= MAXINT):
+            if k > MAXINT:
+                return INT0 + MAXINT      # saturates: "a lot" (only meaningful in comparisons with small values)
+            if k < 0:
                 raise Unsupported(f"integer constant {k} outside the modelled range 0..{MAXINT}")
             return INT0 + k
         key = ("k", type(k).__name__, k)
@@ -169,7 +171,10 @@ class Model:
 
 # primitive model classes and their state variables ----------------------------------------
 
-PRIM_CLASSES = ("Event", "Lock", "Set", "List", "ExecModel")
+PRIM_CLASSES = ("Event", "Lock", "Set", "List", "ExecModel", "Queue", "Map")
+MAP_KEYS = 2     # map keys are python ints 0..MAP_KEYS-1 (channel ids)
+MAP_COMPS = 3    # a map value is a scalar or a static tuple of up to MAP_COMPS components
+RECV_HINTS = {"_items": "Queue", "items": "Queue", "itemqueue": "Queue", "queue": "Queue", "_channels": "Map", "_callbacks": "Map"}
 
 
 class Compiler:
@@ -277,6 +282,14 @@ class Compiler:
             m.var(f"lst.len[{k}]", 0)
             for i in range(self.list_cap):
                 m.var(f"lst.item[{k}][{i}]", UNSET)
+        for k in range(c.get("Queue", 0)):
+            m.var(f"q.len[{k}]", 0)
+            for i in range(self.list_cap):
+                m.var(f"q.item[{k}][{i}]", UNSET)
+        for k in range(c.get("Map", 0)):
+            for key in range(MAP_KEYS):
+                for comp in range(MAP_COMPS):
+                    m.var(f"map.val[{k}][{key}]#{comp}", UNSET)
         for pc in PRIM_CLASSES:
             m.var(f"alloc.{pc}", 0)
 
@@ -421,6 +434,8 @@ class Compiler:
 
     def destructure(self, ctx, target, val, cur, s):
         if isinstance(target, ast.Tuple):
+            if isinstance(val, tuple) and val[0] == "maptuple" and len(target.elts) <= len(val[1]):
+                val = ("tuple", val[1][: len(target.elts)])
             if not (isinstance(val, tuple) and val[0] == "tuple") or len(val[1]) != len(target.elts):
                 self.err(s, "tuple unpacking needs a statically known tuple of the same length")
             for t, v in zip(target.elts, val[1]):
@@ -431,8 +446,8 @@ class Compiler:
     def store(self, ctx, target, val, cur, s):
         nxt = self.m.new_node()
         if isinstance(target, ast.Name):
-            if target.id == "G" or (isinstance(val, tuple) and val[0] == "tuple"):
-                if isinstance(val, tuple) and val[0] == "tuple":
+            if target.id == "G" or (isinstance(val, tuple) and val[0] in ("tuple", "maptuple")):
+                if isinstance(val, tuple) and val[0] in ("tuple", "maptuple"):
                     ctx.frame.tuples[target.id] = val
                     return cur
             v = ctx.local(target.id)
@@ -459,6 +474,16 @@ class Compiler:
             in_init = ctx.frame.fname == "__init__" and isinstance(target.value, ast.Name) and target.value.id == "self"
             self.emit(ctx, cur, nxt, updates=[(("fld", obj, target.attr), val)], visible=not in_init, node=s,
                       access=None if in_init else [target.attr])
+            return nxt
+        if isinstance(target, ast.Subscript) and self.recv_hint(target.value) == "Map":
+            cur, mp = self.ev(ctx, target.value, cur)
+            cur, key = self.ev(ctx, target.slice, cur)
+            vals = val[1] if isinstance(val, tuple) and val[0] == "tuple" else [val]
+            if len(vals) > MAP_COMPS:
+                self.err(s, "map value tuple too long")
+            ups = [(("map.set", mp, key, i), v) for i, v in enumerate(vals)]
+            fld = target.value.attr if isinstance(target.value, ast.Attribute) else None
+            self.emit(ctx, cur, nxt, updates=ups, visible=True, node=s, info="map[key] = value", access=[fld] if fld else None)
             return nxt
         self.err(s, "unsupported assignment target")
 
@@ -546,6 +571,34 @@ class Compiler:
         ctx.loops.pop()
         if s.orelse:
             self.err(s, "while/else unsupported")
+        return after
+
+    def s_For(self, ctx, s, cur):
+        """for NAME in self._list(<map>) / list(<map>): iterates over a snapshot of the map's keys (bounded by MAP_KEYS)"""
+        it = s.iter
+        inner = it.args[0] if isinstance(it, ast.Call) and len(it.args) == 1 and ((isinstance(it.func, ast.Attribute) and it.func.attr == "_list") or (isinstance(it.func, ast.Name) and it.func.id == "list")) else None
+        if inner is None or self.recv_hint(inner) != "Map" or not isinstance(s.target, ast.Name) or s.orelse:
+            self.err(s, "unsupported statement For (only `for x in list(<map>)` is modelled)")
+        cur, mp = self.ev(ctx, inner, cur)
+        snaps = [self.fresh(ctx.thread, f"snap{j}") for j in range(MAP_KEYS)]
+        n = self.m.new_node()
+        fld = inner.attr if isinstance(inner, ast.Attribute) else None
+        self.emit(ctx, cur, n, updates=[(V(t), ("ne", ("mapget", mp, C(INT0 + j), 0), C(UNSET))) for j, t in enumerate(snaps)],
+                  visible=True, node=s, info="snapshot of the map's keys", access=[fld] if fld else None)
+        cur = n
+        after = self.m.new_node()
+        var = ctx.local(s.target.id)
+        for j, t in enumerate(snaps):
+            body, skip = self.m.new_node(), self.m.new_node()
+            self.emit(ctx, cur, body, guard=("ne", V(t), C(0)), updates=[(V(var), C(INT0 + j))], visible=False, node=s)
+            self.emit(ctx, cur, skip, guard=("eq", V(t), C(0)), visible=False)
+            ctx.loops.append((skip, after, len(ctx.finally_stack)))
+            e = self.block(ctx, s.body, body)
+            ctx.loops.pop()
+            if e is not None:
+                self.emit(ctx, e, skip, visible=False)
+            cur = skip
+        self.emit(ctx, cur, after, visible=False)
         return after
 
     def s_Break(self, ctx, s, cur):
@@ -811,7 +864,7 @@ class Compiler:
             if not self.field_immutable(e[2]):
                 return True
             return self.expr_visible(e[1])
-        if e[0] in ("ev.flag", "lk.owner", "lk.count", "setsize", "setin", "lstlen", "truthy", "lstitem"):
+        if e[0] in ("ev.flag", "lk.owner", "lk.count", "setsize", "setin", "lstlen", "truthy", "lstitem", "qlen", "qfront", "mapget"):
             return True
         if e[0] == "v":
             return e[1].startswith("G.") and False
@@ -880,6 +933,7 @@ class Compiler:
                 return cur, (("not", c) if isinstance(op, ast.NotIn) else c)
             cur, a = self.ev(ctx, node.left, cur)
             cur, b = self.ev(ctx, node.comparators[0], cur)
+            a, b = self.scalar(a), self.scalar(b)
             if isinstance(op, (ast.Is, ast.Eq)):
                 return cur, ("eq", a, b)
             if isinstance(op, (ast.IsNot, ast.NotEq)):
@@ -896,7 +950,7 @@ class Compiler:
         cur, v = self.ev(ctx, node, cur)
         if isinstance(v, tuple) and v[0] == "bool":
             return cur, v[1]
-        return cur, ("truthy", v)
+        return cur, ("truthy", self.scalar(v))
 
     def ev(self, ctx, node, cur):
         """returns (cur, value Expr).  Emits edges for loads of mutable fields, calls, primitives."""
@@ -921,6 +975,22 @@ class Compiler:
             return self.attr_load(ctx, node, cur)
         if isinstance(node, ast.Call):
             return self.call(ctx, node, cur)
+        if isinstance(node, ast.BoolOp) and isinstance(node.op, ast.Or) and len(node.values) == 2 and getattr(self, "_value_ctx", True) and not isinstance(node.values[0], (ast.Compare, ast.UnaryOp)):
+            # `a or b` as a value: a if truthy else b (b evaluated only then)
+            cur, a = self.ev(ctx, node.values[0], cur)
+            res = self.fresh(ctx.thread, "or")
+            ta, fb, done = self.m.new_node(), self.m.new_node(), self.m.new_node()
+            vis = self.expr_visible(a)
+            self.emit(ctx, cur, ta, guard=("truthy", a), updates=[(V(res), a)], visible=vis, node=node)
+            self.emit(ctx, cur, fb, guard=("not", ("truthy", a)), visible=vis, node=node)
+            self.emit(ctx, ta, done, visible=False)
+            nb = node.values[1]
+            if self.exc_name(nb.func if isinstance(nb, ast.Call) else nb):
+                fb2, b = self.ev_exc(ctx, nb, fb)
+            else:
+                fb2, b = self.ev(ctx, nb, fb)
+            self.emit(ctx, fb2, done, updates=[(V(res), b)], visible=False)
+            return done, V(res)
         if isinstance(node, (ast.Compare, ast.BoolOp)) or (isinstance(node, ast.UnaryOp) and isinstance(node.op, ast.Not)):
             cur, c = self.cond(ctx, node, cur)
             return cur, ("ite", c, C(TRUE), C(FALSE))
@@ -949,8 +1019,22 @@ class Compiler:
                 cur, _ = self.ev(ctx, v, cur)
             return cur, C(self.U.const("<dict>"))
         if isinstance(node, ast.Subscript):
+            hint = self.recv_hint(node.value)
+            if hint == "Map":
+                return p_map_getitem(self, ctx, node, cur)
             return cur, C(self.U.const("<subscript>"))
         self.err(node, f"unsupported expression {type(node).__name__}")
+
+    @staticmethod
+    def scalar(v):
+        """a map entry used as a plain value (presence test, identity comparison): its first component"""
+        if isinstance(v, tuple) and v and v[0] == "maptuple":
+            return v[1][0]
+        return v
+
+    def recv_hint(self, node):
+        last = node.attr if isinstance(node, ast.Attribute) else (node.id if isinstance(node, ast.Name) else None)
+        return RECV_HINTS.get(last)
 
     def name(self, ctx, node):
         n = node.id
@@ -1100,8 +1184,15 @@ class Compiler:
                 return self.extra_stubs[key](self, ctx, node, cur)
             if mname in self.extra_stubs and callable(self.extra_stubs[mname]):
                 return self.extra_stubs[mname](self, ctx, node, cur)
-            if mname in PRIM_METHODS:
+            hint = self.recv_hint(fn.value)
+            if hint and (hint, mname) in HINTED_METHODS:
+                return HINTED_METHODS[(hint, mname)](self, ctx, node, cur)
+            if mname == "Queue":
+                return self.alloc(ctx, "Queue", cur, node)
+            if mname in PRIM_METHODS and not (mname in ("pop",) and hint is None and node.args):
                 return PRIM_METHODS[mname](self, ctx, node, cur)
+            if mname == "pop" and node.args:
+                return p_list_pop0(self, ctx, node, cur)
             owners = self.method_owner.get(mname, [])
             if owners:
                 cur, recv = self.ev(ctx, fn.value, cur)
@@ -1403,6 +1494,115 @@ def p_start(comp, ctx, node, cur):
     ups.append((V(comp.m.errors_var), ("ite", ("le", C(len(slots)), V(ctr)), C(1), V(comp.m.errors_var))))
     comp.emit(ctx, cur, n, updates=ups, visible=True, info=f"start thread {f.attr}", node=node, sync="start")
     return n, C(NONE)
+
+
+def p_q_put(comp, ctx, node, cur):
+    cur, q = _recv(comp, ctx, node, cur)
+    cur, x = comp.ev(ctx, node.args[0], cur)
+    n = comp.m.new_node()
+    comp.emit(ctx, cur, n, updates=[(("q.put", q), x)], visible=True, info="Queue.put", node=node, sync="qput")
+    return n, C(NONE)
+
+
+def p_q_get(comp, ctx, node, cur):
+    """get(), get(block=False), get(timeout=t): Empty is raised by the non-blocking form and when a finite timeout expires"""
+    cur, q = _recv(comp, ctx, node, cur)
+    block = _kwarg(node, "block", 0)
+    tnode = _kwarg(node, "timeout", 1)
+    timeout = C(NONE)
+    if tnode is not None:
+        cur, timeout = comp.ev(ctx, tnode, cur)
+    res = comp.fresh(ctx.thread, "qg")
+    n = comp.m.new_node()
+    nonempty = ("ne", ("qlen", q), C(0))
+    comp.emit(ctx, cur, n, guard=nonempty, updates=[(V(res), ("qfront", q)), (("q.pop", q), C(0))], visible=True, info="Queue.get -> item", node=node, sync="qget")
+    empty = comp.m.new_node()
+    import queue as _queue
+
+    comp.ns.setdefault("QueueEmpty", _queue.Empty)
+    if block is not None and isinstance(block, ast.Constant) and block.value is False:
+        comp.emit(ctx, cur, empty, guard=("not", nonempty), visible=True, info="Queue.get(block=False) -> Empty", node=node, sync="qget-empty")
+        comp.raise_to(ctx, empty, C(comp.U.exc("QueueEmpty", _queue.Empty)), node)
+    elif not (timeout == C(NONE)):
+        clock = comp.m.var("G.clock", INT0)
+        comp.emit(ctx, cur, empty, guard=("and", ("not", nonempty), ("ne", timeout, C(NONE))), updates=[(V(clock), ("padd", V(clock), timeout))],
+                  visible=True, kind="timeout", info="Queue.get times out -> Empty", node=node, sync="qget-timeout")
+        comp.raise_to(ctx, empty, C(comp.U.exc("QueueEmpty", _queue.Empty)), node)
+    return n, V(res)
+
+
+def p_q_empty(comp, ctx, node, cur):
+    cur, q = _recv(comp, ctx, node, cur)
+    t = comp.fresh(ctx.thread, "qe")
+    n = comp.m.new_node()
+    comp.emit(ctx, cur, n, updates=[(V(t), ("ite", ("eq", ("qlen", q), C(0)), C(TRUE), C(FALSE)))], visible=True, info="Queue.empty", node=node)
+    return n, V(t)
+
+
+def _map_access(node):
+    v = node.func.value if isinstance(node, ast.Call) else node.value
+    return [v.attr] if isinstance(v, ast.Attribute) else None
+
+
+def _map_value(mp, key):
+    """scalar view of a map entry (component 0); tuple views are rebuilt by the unpacking site"""
+    return ("mapget", mp, key, 0)
+
+
+def p_map_get(comp, ctx, node, cur):
+    cur, mp = _recv(comp, ctx, node, cur)
+    cur, key = comp.ev(ctx, node.args[0], cur)
+    dflt = C(NONE)
+    if len(node.args) > 1:
+        cur, dflt = comp.ev(ctx, node.args[1], cur)
+    t = comp.fresh(ctx.thread, "mg")
+    n = comp.m.new_node()
+    v = _map_value(mp, key)
+    comp.emit(ctx, cur, n, updates=[(V(t), ("ite", ("eq", v, C(UNSET)), dflt, v))], visible=True, info="map.get", node=node, access=_map_access(node))
+    return n, V(t)
+
+
+def p_map_getitem(comp, ctx, node, cur):
+    cur, mp = comp.ev(ctx, node.value, cur)
+    cur, key = comp.ev(ctx, node.slice, cur)
+    ts = [comp.fresh(ctx.thread, "mi") for _ in range(MAP_COMPS)]
+    n, bad = comp.m.new_node(), comp.m.new_node()
+    present = ("ne", ("mapget", mp, key, 0), C(UNSET))
+    comp.emit(ctx, cur, n, guard=present, updates=[(V(t), ("mapget", mp, key, i)) for i, t in enumerate(ts)], visible=True, info="map[key]", node=node, access=_map_access(node))
+    comp.emit(ctx, cur, bad, guard=("not", present), visible=True, info="map[key] -> KeyError", node=node, access=_map_access(node))
+    comp.raise_to(ctx, bad, C(comp.U.exc("KeyError")), node)
+    return n, ("maptuple", [V(t) for t in ts])
+
+
+def p_map_pop(comp, ctx, node, cur):
+    cur, mp = _recv(comp, ctx, node, cur)
+    cur, key = comp.ev(ctx, node.args[0], cur)
+    dflt = C(NONE)
+    if len(node.args) > 1:
+        cur, dflt = comp.ev(ctx, node.args[1], cur)
+    ts = [comp.fresh(ctx.thread, "mp") for _ in range(MAP_COMPS)]
+    n = comp.m.new_node()
+    v0 = ("mapget", mp, key, 0)
+    ups = [(V(ts[0]), ("ite", ("eq", v0, C(UNSET)), dflt, v0))] + [(V(t), ("mapget", mp, key, i)) for i, t in enumerate(ts) if i > 0]
+    ups += [(("map.set", mp, key, i), C(UNSET)) for i in range(MAP_COMPS)]
+    comp.emit(ctx, cur, n, updates=ups, visible=True, info="map.pop", node=node, access=_map_access(node))
+    return n, ("maptuple", [V(t) for t in ts])
+
+
+def p_list_pop0(comp, ctx, node, cur):
+    """list.pop(0) on the (in these scenarios always empty) error lists: IndexError when empty"""
+    cur, l = _recv(comp, ctx, node, cur)
+    n, bad = comp.m.new_node(), comp.m.new_node()
+    t = comp.fresh(ctx.thread, "p0")
+    nonempty = ("ne", ("len", l), C(INT0))
+    comp.emit(ctx, cur, n, guard=nonempty, updates=[(V(t), ("lsttop", l)), (("lst.pop", l), C(0))], visible=True, info="list.pop(0) (single-element lists only)", node=node, access=_recv_field(l))
+    comp.emit(ctx, cur, bad, guard=("not", nonempty), visible=True, info="list.pop(0) -> IndexError", node=node, access=_recv_field(l))
+    comp.raise_to(ctx, bad, C(comp.U.exc("IndexError")), node)
+    return n, V(t)
+
+
+HINTED_METHODS = {("Queue", "put"): p_q_put, ("Queue", "get"): p_q_get, ("Queue", "empty"): p_q_empty,
+                  ("Map", "get"): p_map_get, ("Map", "pop"): p_map_pop}
 
 
 PRIM_METHODS = {
